@@ -56,7 +56,12 @@ pub(super) async fn call_explain_in_process(
                             .as_ref()
                             .map(crate::deploy::load_managed_paths_from_snapshot)
                             .transpose()?
-                            .map(|m| crate::cli::util::filter_managed(m, target))
+                            .map(|m| {
+                                crate::cli::util::filter_managed(
+                                    crate::handlers::read_only::retain_under_roots(m, &roots),
+                                    target,
+                                )
+                            })
                     };
                     let plan = crate::deploy::plan(&desired, managed_paths.as_ref())?;
 
